@@ -600,6 +600,13 @@ class MessageManager(interfaces.TokenInterface, interfaces.MessageManager):
         if message.mid is None:
             message.mid = self._next_message_id()
 
+        if message.mtype is CON:
+            # The exchange and the backlog serialize the message anew for
+            # every copy sent. What they work on is a snapshot: the object
+            # itself stays the caller's, who may hand it in again (stamping
+            # a new token and message ID on it) or change it.
+            message = message.copy()
+
         if message.mtype == CON and message.remote in self._backlogs:
             assert any(
                 remote == message.remote for (remote, _) in self._active_exchanges
